@@ -111,6 +111,11 @@ func (c38) Generate(prop string, r *simrt.RNG, tier string, run int) *simrt.Scen
 			case 6:
 				act.Sub = append(act.Sub, simrt.Op{K: "sign", I: []int64{int64(r.Intn(2)), via}})
 			case 7:
+				if r.Chance(1, 3) {
+					// the private key of the index-derived account (queue request only)
+					act.Sub = append(act.Sub, simrt.Op{K: "airdrop"})
+					break
+				}
 				act.Sub = append(act.Sub, simrt.Op{K: "seed", I: []int64{pickPw(), via}})
 			case 8:
 				// never a multiple of 100 ms: a sleeper can never wake at the very
@@ -145,7 +150,7 @@ type rec38 struct {
 
 func (r *rec38) observer() bool {
 	switch r.kind {
-	case "status", "islocked", "dump", "sign", "seed":
+	case "status", "islocked", "dump", "sign", "seed", "airdrop":
 		return true
 	}
 	return false
@@ -156,7 +161,7 @@ func (r *rec38) sawUnlocked() bool {
 	switch r.kind {
 	case "status", "islocked":
 		return r.unlocked
-	case "dump", "sign", "seed":
+	case "dump", "sign", "seed", "airdrop":
 		return r.ok
 	}
 	return false
@@ -235,6 +240,13 @@ func (w *world38) run() {
 		_, pub, err := addrOf(types.SECP256K1, kb)
 		simrt.Must(err, "addrOf")
 		w.pubs = append(w.pubs, pub)
+	}
+	// the account derived for index requests ("airdrop") exists already in most
+	// runs: a later request returns its stored private key
+	if sc.Knob("airdrop_ready", 1) == 1 {
+		if m, err := w.in.api().ExecWalletFunc("wallet", "NewAccountByIndex", &types.Int32{Data: int32(types.AirDropMinIndex)}); err != nil || m.(*types.ReplyString).Data == "" {
+			simrt.Failf("C38 setup: NewAccountByIndex: %v", err)
+		}
 	}
 	simrt.Settle()
 	tx := &types.Transaction{Execer: []byte("coins"), To: w.addrs[0], Fee: 1000000,
@@ -411,6 +423,14 @@ func (w *world38) do(a *simrt.Actor, cid, opIdx int, op *simrt.Op, api client.Qu
 		begin(0)
 		r.unlocked = !lw.IsWalletLocked()
 		end()
+	case "airdrop":
+		begin(1)
+		m, err := api.ExecWalletFunc("wallet", "NewAccountByIndex", &types.Int32{Data: int32(types.AirDropMinIndex)})
+		if rep, ok := m.(*types.ReplyString); ok && err == nil && rep.Data != "" {
+			r.ok = true
+		}
+		r.errs = errS(err)
+		end()
 	case "dump":
 		addr := w.addrs[int(op.Int(0))%len(w.addrs)]
 		begin(op.Int(1))
@@ -515,7 +535,7 @@ func step38(state, input, output interface{}) (bool, interface{}) {
 		if r.unlocked && effLocked(s, r.tCall) {
 			return false, s
 		}
-	case "dump", "sign":
+	case "dump", "sign", "airdrop":
 		if r.ok && effLocked(s, r.tCall) {
 			return false, s
 		}
